@@ -360,13 +360,17 @@ pub(crate) trait CKKSAddDefault<BE: Backend> {
             cst_znx.effective_k(),
         )?;
         let n = dst.n().as_usize();
+        // A constant encoded with more limbs than `dst` (its log_delta exceeds the ciphertext's) only
+        // contributes its leading `dst.size()` digits: the others lie below the last limb of `dst`
+        // (less than one unit of it, the digits being balanced), i.e. below the ciphertext's precision.
+        let limbs = dst.size();
         if let Some(coeff) = cst_znx.re() {
-            for (limb, digit) in coeff.iter().enumerate() {
+            for (limb, digit) in coeff.iter().enumerate().take(limbs) {
                 dst.data_mut().at_mut(0, limb)[0] += *digit;
             }
         }
         if let Some(coeff) = cst_znx.im() {
-            for (limb, digit) in coeff.iter().enumerate() {
+            for (limb, digit) in coeff.iter().enumerate().take(limbs) {
                 dst.data_mut().at_mut(0, limb)[n / 2] += *digit;
             }
         }
